@@ -7,6 +7,7 @@ package main
 // with encoding/json and, through ops c15.resolve / c15.members, with the Coq model (Model/FieldRes.v).
 
 import (
+	"bytes"
 	stdjson "encoding/json"
 	"fmt"
 	"math/rand"
@@ -293,4 +294,171 @@ func appendNote(notes []string, s string) []string {
 		return append(notes, s)
 	}
 	return notes
+}
+
+// ---------------------------------------------------------------------------
+// Added by the generator audit (wave 6): what the generated shapes above never meet.  Compared with encoding/json
+// only (no model op: the model's select takes exact names).
+//   - keys that match a promoted field only case-insensitively, and both spellings in one document
+//   - the stream decoder (whole input, a byte per read) on embedded shapes
+//   - encoding with some embedded pointers nil (their members are absent), through Marshal and MarshalIndent
+//   - names that differ in case only at different depths ( X and x ), selected by exact keys: the lower-cased alias
+//     the decoder keeps for X must never stand in for, or hide, a real field x
+
+// like c15GenStruct, tag names drawn from names that differ in case only
+func c15GenStructCase(r *rand.Rand, depth int, top bool) []*c15Fld {
+	n := 1 + r.Intn(3)
+	if top {
+		n = 2 + r.Intn(3)
+	}
+	pool := []string{"X", "x", "Y", "y"}
+	var fs []*c15Fld
+	used := map[string]bool{}
+	for i := 0; i < n; i++ {
+		if depth > 0 && r.Intn(5) < 3 {
+			fs = append(fs, &c15Fld{embed: c15GenStructCase(r, depth-1, false), ptr: r.Intn(3) == 0})
+			continue
+		}
+		gn := c15EmbNames[r.Intn(len(c15EmbNames))]
+		if used[gn] {
+			continue
+		}
+		used[gn] = true
+		f := &c15Fld{goName: gn, name: gn}
+		if r.Intn(2) == 0 {
+			f.tagged = true
+			f.name = pool[r.Intn(len(pool))]
+		}
+		fs = append(fs, f)
+	}
+	if len(fs) == 0 {
+		fs = append(fs, &c15Fld{goName: "X", name: "X"})
+	}
+	return fs
+}
+
+// allocates embedded pointers at random and numbers the int leaves that can be reached
+func c15NumberSome(v reflect.Value, n *int64, r *rand.Rand) {
+	switch v.Kind() {
+	case reflect.Ptr:
+		if r.Intn(2) == 0 {
+			return
+		}
+		v.Set(reflect.New(v.Type().Elem()))
+		c15NumberSome(v.Elem(), n, r)
+	case reflect.Struct:
+		for i := 0; i < v.NumField(); i++ {
+			c15NumberSome(v.Field(i), n, r)
+		}
+	case reflect.Int:
+		*n++
+		v.SetInt(*n)
+	}
+}
+
+func c15EmbeddedExtra(o *Out) {
+	r := o.rng
+	n := 300
+	if o.tier == "thorough" {
+		n = 6000
+	}
+	leaf := func(t reflect.Type, doc []byte, mode int, want int64) string {
+		dst := reflect.New(t)
+		var err error
+		if perr := safeCall(func() error {
+			switch mode {
+			case 0:
+				err = gojson.Unmarshal(doc, dst.Interface())
+			case 1:
+				err = streamDecode(doc, dst.Interface(), false)
+			case 2:
+				err = streamDecode(doc, dst.Interface(), true)
+			default:
+				err = stdjson.Unmarshal(doc, dst.Interface())
+			}
+			return nil
+		}); perr != nil {
+			return "panic"
+		}
+		if err != nil {
+			return "E"
+		}
+		var found []string
+		c15FindLeaf(dst.Elem(), want, "", &found)
+		return strings.Join(found, "|")
+	}
+	for i := 0; i < n; i++ {
+		mixed := i%2 == 1
+		var fs []*c15Fld
+		if mixed {
+			fs = c15GenStructCase(r, 3, true)
+		} else {
+			fs = c15GenStruct(r, 3, true)
+		}
+		var t reflect.Type
+		if safeCall(func() error { t = c15BuildType(fs); return nil }) != nil {
+			continue
+		}
+		shape := c15Show(fs)
+		o.current(map[string]string{"property": "C15", "phase": "embedded, extra", "shape": shape})
+		if mixed {
+			o.count("embedded_extra_shapes_names_differing_in_case", 1)
+		} else {
+			o.count("embedded_extra_shapes", 1)
+		}
+		var docs []string
+		if mixed {
+			// keys X, x, Y, y only: when both cases are names each key is exact, when one is a name the other key has
+			// a single case-insensitive candidate, so the recorded tie rule (FoldTieOrder) is never what decides
+			for _, k := range []string{"X", "x", "Y", "y"} {
+				docs = append(docs, `{"`+k+`":7}`, `{"`+k+`":7,"`+c15ToggleASCII(k, r, true)+`":8}`, `{"`+c15ToggleASCII(k, r, true)+`":8,"`+k+`":7}`)
+			}
+		} else {
+			for _, k := range c15EmbNames {
+				l := strings.ToLower(k)
+				docs = append(docs, `{"`+l+`":7}`, `{"`+k+`":8,"`+l+`":7}`, `{"`+l+`":7,"`+k+`":7}`, `{"\u00`+fmt.Sprintf("%02x", l[0])+`":7}`)
+			}
+		}
+		for _, doc := range docs {
+			want7, want8 := leaf(t, []byte(doc), 9, 7), leaf(t, []byte(doc), 9, 8)
+			for mode := 0; mode < 3; mode++ {
+				got7, got8 := leaf(t, []byte(doc), mode, 7), leaf(t, []byte(doc), mode, 8)
+				o.count("embedded_extra_decode_cases", 1)
+				if got7 != want7 || got8 != want8 {
+					o.violation("C15", "embedded-field resolution differs from encoding/json (decode, case-insensitive or stream)", map[string]string{
+						"shape": shape, "doc": doc, "mode": fmt.Sprint(mode), "got": got7 + " / " + got8, "want": want7 + " / " + want8})
+				}
+			}
+		}
+		// encoding with embedded pointers nil at random
+		for rep := 0; rep < 3; rep++ {
+			v := reflect.New(t)
+			var cnt int64
+			c15NumberSome(v.Elem(), &cnt, r)
+			for variant := 0; variant < 2; variant++ {
+				var g, w []byte
+				var gerr, werr error
+				if perr := safeCall(func() error {
+					if variant == 0 {
+						g, gerr = gojson.Marshal(v.Interface())
+					} else {
+						g, gerr = gojson.MarshalIndent(v.Interface(), "", " ")
+					}
+					return nil
+				}); perr != nil {
+					gerr = perr
+				}
+				if variant == 0 {
+					w, werr = stdjson.Marshal(v.Interface())
+				} else {
+					w, werr = stdjson.MarshalIndent(v.Interface(), "", " ")
+				}
+				o.count("embedded_extra_encode_cases", 1)
+				if (gerr != nil) != (werr != nil) || !bytes.Equal(g, w) {
+					o.violation("C15", "members written for a value with nil embedded pointers differ from encoding/json", map[string]string{
+						"shape": shape, "variant": fmt.Sprint(variant), "got": string(g), "want": string(w), "gerr": fmt.Sprint(gerr)})
+				}
+			}
+		}
+	}
 }
